@@ -75,19 +75,45 @@ func c18Middleware(p *Prog, c *Check) {
 	if c.Must(err) {
 		fi := p.Info(se)
 		c.Analysed(shortFn(se))
-		for _, r := range returnsOf(se) {
-			t := fi.T(r.Results[0])
-			key := "shouldEnableEndpoint:ret@" + retKey(fi, r)
+		// every value the function can return is false, the configuration flag, the read-only verdict
+		// itself, or true under a positive read-only verdict (a || b arrives as a phi: each incoming
+		// value is decided with the facts of its own edge)
+		op, flag := fi.T(se.Params[0]), fi.T(se.Params[1])
+		var classify func(v ssa.Value, facts []Atom, depth int) (bool, string)
+		classify = func(v ssa.Value, facts []Atom, depth int) (bool, string) {
+			t := fi.T(v)
 			switch {
 			case t.s == "false":
-				c.Ok(rule, key, p.siteOf(r), shortFn(se), "return false", "closed")
+				return true, "closed"
+			case t.s == flag.s:
+				return true, "the configuration flag"
+			case ParsePat("isReadOnlyEndpoint($op)").Match(t, Binds{"op": op}):
+				return true, "the read-only verdict"
 			case t.s == "true":
-				c.Guard(p, rule, key, r, "return true", Binds{"op": fi.T(se.Params[0])}, "isReadOnlyEndpoint($op) == true")
-			case t.s == fi.T(se.Params[1]).s:
-				c.Ok(rule, key, p.siteOf(r), shortFn(se), "return enableWriteOperations", "the configuration flag")
-			default:
-				c.Fail(rule, key, p.siteOf(r), shortFn(se), "return "+t.s, "an endpoint can be enabled by something other than its read-only mark or the write-enable flag")
+				if _, has := findAtom(facts, "isReadOnlyEndpoint($op) == true", Binds{"op": op}); has {
+					return true, "true under isReadOnlyEndpoint(op)"
+				}
+				return false, "returns true without a positive read-only verdict"
 			}
+			if ph, isPhi := v.(*ssa.Phi); isPhi && depth < 3 {
+				var why []string
+				for i, e := range ph.Edges {
+					pred := ph.Block().Preds[i]
+					pf := append(append([]Atom{}, fi.blockFacts(pred)...), fi.edgeAtoms(pred, ph.Block())...)
+					ok, w := classify(e, pf, depth+1)
+					if !ok {
+						return false, w
+					}
+					why = append(why, w)
+				}
+				return true, strings.Join(dedup(why), " | ")
+			}
+			return false, "an endpoint can be enabled by something other than its read-only mark or the write-enable flag: " + t.s
+		}
+		for _, r := range returnsOf(se) {
+			key := "shouldEnableEndpoint:ret@" + retKey(fi, r)
+			ok, why := classify(r.Results[0], fi.FactsAt(r), 0)
+			c.Result(ok, rule, key, p.siteOf(r), shortFn(se), "return "+fi.T(r.Results[0]).s, why, why)
 		}
 	}
 	ro, err := p.Func("keyper/kproapi.isReadOnlyEndpoint")
